@@ -727,3 +727,34 @@ pub fn c16_cipher_list_decode_total_12_of_14() {
 pub fn c16_cipher_list_decode_total_7_of_10() {
     algorithms_part_total(7, 10)
 }
+
+/// C08 / C16 (the last step of the handshake parser, extracted: the signature read): whatever the length byte says (0..=255)
+/// and however many bytes follow, it ends with the signature of that length or the parse error - never a panic.
+fn signature_part_total(total: usize, start: usize) {
+    let bytes: [u8; 16] = kani::any();
+    match InitMsg::x_read_signature_part(&bytes[..total], start) {
+        Ok((pos, n)) => {
+            assert!(pos == start && start < total);
+            assert!(n == bytes[start] as usize && start + 1 + n <= total);
+        }
+        Err(e) => {
+            assert!(start >= total || start + 1 + bytes[start] as usize > total);
+            assert!(matches!(e, Error::Parse(_)));
+            std::mem::forget(e);
+        }
+    }
+    vcover!(start < total && bytes[start] > 64, "length_byte_above_64");
+    witness!();
+}
+#[cfg_attr(kani, kani::proof, kani::unwind(258))]
+pub fn c08_signature_read_total_12_at_2() {
+    signature_part_total(12, 2)
+}
+#[cfg_attr(kani, kani::proof, kani::unwind(258))]
+pub fn c08_signature_read_total_16_at_0() {
+    signature_part_total(16, 0)
+}
+#[cfg_attr(kani, kani::proof, kani::unwind(258))]
+pub fn c08_signature_read_total_5_at_5() {
+    signature_part_total(5, 5)
+}
